@@ -4,6 +4,7 @@ import WhVerif.Lemmas.C02Compose
 import WhVerif.Lemmas.C02Example
 import WhVerif.Lemmas.C02PipelineExample
 import WhVerif.Lemmas.C02Raw
+import WhVerif.Lemmas.C02Bam
 /-!
 # C02 — property theorems (composition over the solver model)
 
@@ -270,5 +271,70 @@ example : ∃ I, mkInst [100, 200, 300, 400] (selectReads exCands [0, 2, 3]) 1 [
   | some I =>
     exact ⟨I, rfl, (pipeline_truth_from_raw_reads exCands exTruth exSrcC ((rawErrFreeB_iff _ _ _).mp (by decide)) [0, 2, 3]
       (by decide) [100, 200, 300, 400] [] I h (by decide)).2.2.1⟩
+
+/-! ## The premise "the reads given for a sample": which alignments are a sample's reads (round 8)
+
+`whatshap phase` takes any number of alignment files; read-group ids are only unique within ONE file (per-sample BAMs all
+use `@RG ID:1`).  Model: `Model/C02Bam.lean` (every file has its own table sample -> read-group ids). -/
+section reads_of_a_sample
+open WhVerif.C02Bam
+
+/-- the reads taken for `sample` are exactly the alignments (with the index of their file) whose `RG` tag names, in the header
+    of the alignment's OWN file, a read group of `sample` — whatever other files say about that id -/
+theorem fetched_reads_are_the_samples (files : List BamFile) (sample : String) (rs : List (Nat × Aln))
+    (h : fetch files sample = some rs) (j : Nat) (a : Aln) :
+    (j, a) ∈ rs ↔ ∃ f, files[j]? = some f ∧ a ∈ f.alns ∧ OwnedBy f a sample := by
+  unfold fetch at h
+  split at h
+  · cases h
+    rw [mem_fetchFrom]
+    constructor
+    · rintro ⟨k, f, hk, rfl, h⟩
+      exact ⟨f, by simpa using hk, h⟩
+    · rintro ⟨f, hj, h⟩
+      exact ⟨j, f, hj, by omega, h⟩
+  · cases h
+
+/-- the run is refused (`SampleNotFoundError`) exactly when no header names the sample -/
+theorem fetch_none_iff (files : List BamFile) (sample : String) :
+    fetch files sample = none ↔ ∀ f ∈ files, ∀ g ∈ f.rgs, g.sm ≠ some sample := by
+  unfold fetch
+  split <;> rename_i h
+  · simp only [List.any_eq_true, hasSample, beq_iff_eq] at h
+    obtain ⟨f, hf, g, hg, hsm⟩ := h
+    simp only [reduceCtorEq, false_iff]
+    intro hall
+    exact hall f hf g hg hsm
+  · simp only [true_iff]
+    intro f hf g hg hsm
+    apply h
+    simp only [List.any_eq_true, hasSample, beq_iff_eq]
+    exact ⟨f, hf, g, hg, hsm⟩
+
+/-- with read-group ids unique within each header, no alignment is taken as a read of two different samples -/
+theorem fetched_reads_disjoint (files : List BamFile) (s s' : String) (hne : s ≠ s')
+    (huniq : ∀ f ∈ files, ∀ g ∈ f.rgs, ∀ g' ∈ f.rgs, g.id = g'.id → g = g')
+    (rs rs' : List (Nat × Aln)) (h : fetch files s = some rs) (h' : fetch files s' = some rs') :
+    ∀ x ∈ rs, x ∉ rs' := by
+  rintro ⟨j, a⟩ hx hx'
+  obtain ⟨f, hf, _, g, hg, hsm, hid⟩ := (fetched_reads_are_the_samples files s rs h j a).mp hx
+  obtain ⟨f', hf', _, g', hg', hsm', hid'⟩ := (fetched_reads_are_the_samples files s' rs' h' j a).mp hx'
+  have : f = f' := by simpa [hf] using hf'
+  subst this
+  have hmem : f ∈ files := List.mem_of_getElem? hf
+  have : g = g' := huniq f hmem g hg g' hg' (by rw [hid, hid'])
+  subst this
+  exact hne (by simpa [hsm] using hsm')
+
+/-- two per-sample files that both call their read group "1" -/
+def exFiles : List BamFile :=
+  [⟨[⟨"1", some "A"⟩], [⟨"a1", "1"⟩, ⟨"a2", "1"⟩]⟩, ⟨[⟨"1", some "B"⟩, ⟨"2", none⟩], [⟨"b1", "1"⟩]⟩]
+
+example : fetch exFiles "A" = some [(0, ⟨"a1", "1"⟩), (0, ⟨"a2", "1"⟩)] := by decide
+example : fetch exFiles "B" = some [(1, ⟨"b1", "1"⟩)] := by decide
+example : fetch exFiles "C" = none := by decide
+example : ∀ f ∈ exFiles, ∀ g ∈ f.rgs, ∀ g' ∈ f.rgs, g.id = g'.id → g = g' := by decide
+
+end reads_of_a_sample
 
 end WhVerif.Props.C02
